@@ -2054,6 +2054,78 @@ def _post_sibling(ctx, rep):
     }
 
 
+def rule7(ctx, rep):
+    """the server stores what it was asked to store (added after seeded change C06-3: `prime[key] = blob` only when the
+    blob or the key was new - a key that moves back to content stored earlier kept pointing at the previous content)"""
+    prog = ctx.prog
+    f = prog.nfunc('dawgie.db.shelve.comms.Worker.do')
+    rep.analysed(f)
+    with rep.rule(
+        'R-C06-7',
+        'the set request is unconditional: in Worker.do every path from db.util.move(...) to the reply (or the return) passes an item store into the requested table',
+        floor=1,
+        breaks='a store is acknowledged but the catalogue keeps the previous blob under that key: the next load returns older content',
+    ) as r:
+        class St(Flow):
+            def __init__(s):
+                super().__init__()
+                s.alias = set()
+                s.bad = []
+                s.moves = 0
+
+            def _is_table(s, e):
+                for x in ast.walk(e):
+                    if isinstance(x, ast.Attribute) and x.attr == 'tables':
+                        return True
+                    if isinstance(x, ast.Name) and x.id in s.alias:
+                        return True
+                return False
+
+            def on_stmt(s, node, st):
+                if isinstance(node, ast.Assign):
+                    for t in node.targets:
+                        if isinstance(t, ast.Name) and not isinstance(node.value, ast.Call) and s._is_table(node.value):
+                            s.alias.add(t.id)
+                        if isinstance(t, ast.Name) and isinstance(node.value, ast.Subscript) and s._is_table(node.value):
+                            s.alias.add(t.id)
+                        if isinstance(t, ast.Subscript) and s._is_table(t.value) and st == 'moved':
+                            return ('stored',)
+                return (st,)
+
+            def on_call(s, call, st):
+                sym = prog.resolve_in(call.func, f) or ''
+                if sym == 'dawgie.db.util.move':
+                    s.moves += 1
+                    return ('moved',)
+                fn = call.func
+                if st == 'moved' and isinstance(fn, ast.Attribute):
+                    if fn.attr in ('__setitem__', 'update') and s._is_table(fn.value):
+                        return ('stored',)
+                    if fn.attr in ('_send', 'write', 'send') and isinstance(fn.value, (ast.Name, ast.Attribute)):
+                        s.bad.append(call)
+                return (st,)
+
+            def may_raise(s, call, st):
+                return False
+
+        fl = St()
+        # two passes so that aliases defined before use in any order are known
+        fl.run(f.node, 'pre')
+        fl.bad, fl.moves = [], 0
+        out = fl.run(f.node, 'pre')
+        if not fl.moves:
+            raise AnalysisError('Worker.do no longer calls db.util.move in the set branch')
+        r.instance()
+        tail = [st for st in out.normal | out.ret if st == 'moved']
+        r.check(
+            not fl.bad and not tail,
+            f'{f.qname}:set-stores-unconditionally',
+            where(f, fl.bad[0] if fl.bad else None),
+            'every path from move() to the reply stores the blob name under the requested key',
+            f'{f.qname} can acknowledge a set request (or return) after db.util.move without storing the blob name under the requested key',
+        )
+
+
 def check(ctx):
     rep = Report(
         PID,
@@ -2087,6 +2159,7 @@ def check(ctx):
     rule4(ctx, rep, fx)
     rule5(ctx, rep, fx)
     rule6(ctx, rep, fx)
+    rule7(ctx, rep)
     if ctx.thorough:
         _post_sibling(ctx, rep)
     return rep
@@ -2119,6 +2192,8 @@ _FILTER = 'spks = list(\n filter(lambda k, K=pk: k[1:] == K[1:], pks)\n )\n spks
 
 VARIANTS = [
     # ---- breaking
+    V('set stores only new blobs or new keys', 'B', 'db/shelve/comms.py', 'Worker.do', 'DBI().tables[request.table.value][key] = value', 'if not exists or key not in DBI().tables[request.table.value]:\n                DBI().tables[request.table.value][key] = value', 'R-C06-7'),
+    V('set stores through a local table alias', 'N', 'db/shelve/comms.py', 'Worker.do', 'DBI().tables[request.table.value][key] = value', 'prime = DBI().tables[request.table.value]\n            prime[key] = value', None),
     V('state vector interned under the task id', 'B', _M, 'Interface.__to_key', 'sv.name(), aid, Table.state', 'sv.name(), tid, Table.state', 'R-C06-1'),
     V('value level without its version', 'B', _M, 'Interface.__to_key', 'Table.value, None, sv[vn]._get_ver()', 'Table.value, None, None', 'R-C06-1'),
     V('algorithm level with the state vector version', 'B', _M, 'Interface.__to_key', 'Table.alg, None, alg._get_ver()', 'Table.alg, None, sv._get_ver()', 'R-C06-1'),
